@@ -662,6 +662,8 @@ PROBES: T.List[T.Tuple[str, T.Dict[str, T.Any], T.Tuple[str, ...]]] = [
     ("x = ((very_long_identifier_number_one + very_long_identifier_number_two + very_long_identifier_number_three))\n", {},
      ('indentation-unstable-inside-multiline-parentheses',)),
     ("x = (a and (b or c))\n", {'max_line_length': 0}, ('indentation-unstable-inside-multiline-parentheses',)),
+    # the shape the partial fix suggested in known_findings.d/C16.json does NOT repair (closer of an argument list)
+    ("x = ({'k': 1})\n", {'max_line_length': 0, 'kwargs_force_multiline': True}, ('indentation-unstable-inside-multiline-parentheses',)),
     ("f(a,)\n", {'no_single_comma_function': True}, ('single-argument-call-relayouted-on-second-pass',)),
     ("x = o.m(a,\n)\n", {'no_single_comma_function': True}, ('single-argument-call-relayouted-on-second-pass',)),
     ("x = 1 \\\n", {}, ('continuation-at-end-of-statement-gains-a-line-per-pass',)),
